@@ -25,3 +25,11 @@ var _ json.Marshaler = IntrospectAccessToken200JSONResponse{}
 func (r IntrospectAccessToken200JSONResponse) MarshalJSON() ([]byte, error) {
 	return json.Marshal(TokenIntrospectionResponse(r))
 }
+
+var _ json.Marshaler = IntrospectAccessTokenExtended200JSONResponse{}
+
+// MarshalJSON makes sure the additional properties (the claims derived from the credentials) are marshalled:
+// the generated type does not inherit the MarshalJSON function of ExtendedTokenIntrospectionResponse.
+func (r IntrospectAccessTokenExtended200JSONResponse) MarshalJSON() ([]byte, error) {
+	return json.Marshal(ExtendedTokenIntrospectionResponse(r))
+}
